@@ -250,6 +250,52 @@ fn g_known(src: &mut Src, obs: &mut Obs) -> CaseResult {
 }
 pub const G_KNOWN: Gen = Gen { name: "c08_known", f: g_known };
 
+/// The conversion is a pure function of the APDU: the same command converted again and again -
+/// through both entry points, interleaved with other commands or not - gives the same result
+/// every time (nothing may accumulate between calls). words: [repetitions class, shape...]
+fn g_again(src: &mut Src, obs: &mut Obs) -> CaseResult {
+    let n = *src.pick(&[300usize, 300, 300, 1000, 70_000]);
+    let ins = *src.pick(&[1u8, 2, 3, 3, 0xA4]);
+    let p1 = *src.pick(&[3u8, 7, 8, 0]);
+    let len = match ins {
+        1 => 64,
+        2 => 65 + src.below(8),
+        _ => src.below(4),
+    };
+    let mut data = src.bytes(len);
+    if ins == 2 {
+        data[64] = (len - 65) as u8;
+    }
+    // extended form without data and without Le does not exist (it is the short case 1)
+    let enc = if data.is_empty() { [0usize, 1, 3][src.below(3)] } else { src.below(4) };
+    let interleave = src.bool();
+    let apdu = frame(0, ins, p1, 0, &data, enc).ok_or_else(|| Fail::new("C08:harness:frame", "frame", json!({})))?;
+    let other = frame(0, 1, 0, 0, &[7u8; 64], 0).unwrap();
+    let want = spec(0, ins, p1, &data);
+    obs.label("repeated-conversion");
+    obs.labelf(format!("repeated:{}", if n >= 70_000 { ">=65536" } else { "<1000+" }));
+    obs.nontrivial(&[&apdu, &(n as u32).to_le_bytes()]);
+    obs.case_with(|| json!({"apdu_hex": hex(&apdu), "repetitions": n, "interleaved_with_another_command": interleave}));
+    let view = CommandView::try_from(&apdu[..]).map_err(|e| Fail::new("C08:harness:apdu", format!("{:?}", e), json!({})))?;
+    let owned = iso7816::Command::<128>::try_from(&apdu[..]).map_err(|e| Fail::new("C08:harness:apdu", format!("{:?}", e), json!({})))?;
+    let oview = CommandView::try_from(&other[..]).map_err(|e| Fail::new("C08:harness:apdu", format!("{:?}", e), json!({})))?;
+    for i in 0..n {
+        let r = if i % 2 == 0 { Request::try_from(view) } else { Request::try_from(&owned) };
+        if observed(&r) != want {
+            return Err(Fail::new(
+                format!("C08:repeated-conversion:call-{}", if i >= 256 { ">=256" } else { "<256" }),
+                format!("conversion #{} of the same APDU gave {}, expected {}", i + 1, short(&observed(&r)), short(&want)),
+                json!({"apdu_hex": hex(&apdu), "call": i + 1}),
+            ));
+        }
+        if interleave && i % 97 == 5 {
+            let _ = Request::try_from(oview);
+        }
+    }
+    Ok(())
+}
+pub const G_AGAIN: Gen = Gen { name: "c08_again", f: g_again };
+
 /// random data contents and lengths
 fn g_random(src: &mut Src, obs: &mut Obs) -> CaseResult {
     let cla = if src.chance(4, 5) { 0 } else { src.byte() };
@@ -339,10 +385,10 @@ pub const G_RAW: Gen = Gen { name: "c08_raw", f: g_raw };
 pub const G_CONCRETE: Gen = Gen { name: "c08_concrete", f: g_concrete };
 
 pub fn gens() -> Vec<Gen> {
-    vec![G_HEADER, G_RANDOM, G_RAW, G_KNOWN, G_CONCRETE, Gen { name: "c08_raw_concrete", f: g_concrete }]
+    vec![G_HEADER, G_RANDOM, G_RAW, G_KNOWN, G_AGAIN, G_CONCRETE, Gen { name: "c08_raw_concrete", f: g_concrete }]
 }
 
-pub const RULE: &str = "APDUs are constructed by an independent ISO 7816-4 framer from (cla, ins, p1, p2, data, encoding in {short, short+Le, extended, extended+Le}, announced Le rotating over {max,1,5,6,7,255,256,65535}) and handed to iso7816's CommandView / Command<7609> parsers and then to both ctap1::Request conversions. Thorough: the complete header space (256 classes x 256 instructions x 256 P1), each header with one (length, encoding, key-handle-length-byte consistency) variant chosen by rotation, and for instructions 1, 2, 3 with ALL 256 variants (16 data lengths on the decision boundaries 0,1,32,63..67,96,255,256,318..321,400 x 4 encodings x 4 consistency modes); quick: every (cla, ins) with P1 in {0,3,7,8,0xFF, rotating} and all variants for cla 0 / ins 1,2,3. Plus every combination of 12 instruction bytes that ISO 7816-4 / CTAP-NFC give a meaning to (SELECT, GET RESPONSE, NFCCTAP_MSG ...) with 7 data fields that mean something elsewhere in the stack (the FIDO applet AID, version strings, a wrapped CTAP2 command) x P1 {0,3,4,0x0C,0x80} x encodings. Plus proptest APDUs with random data (incl. payloads of 7000..7610 and 65535 bytes) and raw byte strings; the owned entry point is additionally exercised with Command<S> buffers that the payload fills exactly. Oracle: the statement transcribed (class check first; ins 3 -> Version; ins 1 -> Register iff 64 bytes; ins 2 -> Authenticate iff P1 in {3,7,8} and len == 65 + data[64]; otherwise the named status), both entry points agree, no panic. Class 0xFF is rejected by the APDU parser itself and nothing further is asserted for it. Non-trivial: cla == 0 and ins in {1,2}; distinct by APDU bytes.";
+pub const RULE: &str = "APDUs are constructed by an independent ISO 7816-4 framer from (cla, ins, p1, p2, data, encoding in {short, short+Le, extended, extended+Le}, announced Le rotating over {max,1,5,6,7,255,256,65535}) and handed to iso7816's CommandView / Command<7609> parsers and then to both ctap1::Request conversions. Thorough: the complete header space (256 classes x 256 instructions x 256 P1), each header with one (length, encoding, key-handle-length-byte consistency) variant chosen by rotation, and for instructions 1, 2, 3 with ALL 256 variants (16 data lengths on the decision boundaries 0,1,32,63..67,96,255,256,318..321,400 x 4 encodings x 4 consistency modes); quick: every (cla, ins) with P1 in {0,3,7,8,0xFF, rotating} and all variants for cla 0 / ins 1,2,3. Plus every combination of 12 instruction bytes that ISO 7816-4 / CTAP-NFC give a meaning to (SELECT, GET RESPONSE, NFCCTAP_MSG ...) with 7 data fields that mean something elsewhere in the stack (the FIDO applet AID, version strings, a wrapped CTAP2 command) x P1 {0,3,4,0x0C,0x80} x encodings. Plus the same APDU converted 300 / 1000 / 70 000 times in a row through both entry points (optionally interleaved with another command): every result must equal the first (the conversion is a pure function). Plus proptest APDUs with random data (incl. payloads of 7000..7610 and 65535 bytes) and raw byte strings; the owned entry point is additionally exercised with Command<S> buffers that the payload fills exactly. Oracle: the statement transcribed (class check first; ins 3 -> Version; ins 1 -> Register iff 64 bytes; ins 2 -> Authenticate iff P1 in {3,7,8} and len == 65 + data[64]; otherwise the named status), both entry points agree, no panic. Class 0xFF is rejected by the APDU parser itself and nothing further is asserted for it. Non-trivial: cla == 0 and ins in {1,2}; distinct by APDU bytes.";
 pub const ASSUMPTIONS: &[&str] = &["the harness framer follows ISO 7816-4 cases 1, 2S/2E, 3S/3E, 4S/4E", "iso7816's parser is part of the system under test (its data slice is compared with the framed data)"];
 
 pub fn run(ctx: &mut Ctx) {
@@ -392,11 +438,12 @@ pub fn run(ctx: &mut Ctx) {
     }
     ctx.enumerate(&G_KNOWN, known.into_iter());
     ctx.random(&G_KNOWN, &[], ctx.t(5_000, 100_000), 16);
+    ctx.random(&G_AGAIN, &[], ctx.t(150, 3_000), 90);
     ctx.random(&G_RANDOM, &[], ctx.t(60_000, 2_000_000), 160);
     ctx.random(&G_RAW, &[], ctx.t(60_000, 2_000_000), 40);
     ctx.require(&[
         "expect:Version", "expect:Register", "expect:Authenticate", "expect:ClassNotSupported", "expect:IncorrectDataParameter",
         "expect:InstructionNotSupportedOrInvalid", "encoding:short", "encoding:short+Le", "encoding:extended", "encoding:extended+Le",
-        "ins1:len64", "ins1:len63", "ins1:len65", "ins2:len65", "ins2:len64", "ins2:len66", "ins2:len320", "ins2:len321", "ins2:len319", "raw:parsed", "long-payload", "owned:exactly-full", "known-instruction-and-data",
+        "ins1:len64", "ins1:len63", "ins1:len65", "ins2:len65", "ins2:len64", "ins2:len66", "ins2:len320", "ins2:len321", "ins2:len319", "raw:parsed", "long-payload", "owned:exactly-full", "known-instruction-and-data", "repeated-conversion", "repeated:>=65536",
     ]);
 }
